@@ -136,7 +136,7 @@ def rule_domain(ctx):
              Atom("map empty", "bool", a_empty, [True, False]), Atom("no leaders", "bool", a_nolead, [True, False])]
     W = Walker(ctx, f, atoms)
     ins = [c["bb"] for c in T.calls() if c["q"].endswith("BTreeMap::insert")]
-    oks = [bi for bi, b in enumerate(f.blocks) for s in b["s"] if s["k"] == "assign" and s["p"]["l"] == 0 and s["r"]["k"] == "agg" and s["r"].get("variant") == "Ok"]
+    oks = [bi for bi, b in enumerate(f.blocks) for s in b["s"] if s["k"] == "assign" and s["p"]["l"] in Q.ret_locals(f) and s["r"]["k"] == "agg" and s["r"].get("variant") == "Ok"]
     head = loop_head(ctx, f, target=ins)
     ctx.floor(R, "insert sites", len(ins), 1)
     ctx.floor(R, "Ok returns", len(oks), 1)
